@@ -155,6 +155,25 @@ pub fn generate_from_config(
         config,
     )?;
 
+    // Keep the generation cache in step with what was written: a later run of the command line or
+    // of the build script must not take the files of this configuration for its own
+    match crate::build::GenerationCache::new_with_events(
+        &commands,
+        analyzer.get_discovered_events(),
+        analyzer.get_discovered_structs(),
+        config,
+    ) {
+        Ok(cache) => {
+            if let Err(e) = cache
+                .with_generated_files(&generated_files)
+                .save(&config.output_path)
+            {
+                logger.warning(&format!("Failed to save generation cache: {}", e));
+            }
+        }
+        Err(e) => logger.warning(&format!("Failed to compute generation cache: {}", e)),
+    }
+
     if config.is_verbose() {
         logger.info(&format!(
             "✅ Successfully generated {} files for {} commands:",
